@@ -16,7 +16,7 @@ for pid in sorted(PROPS):
         'quick_cmd': f"timeout {int(q['deadline_s'] * 3 + 240)} /venv/bin/python /verif/run_check.py {pid} --tier quick",
         'thorough_cmd': f"timeout {int(th['deadline_s'] * 2 + 600)} /venv/bin/python /verif/run_check.py {pid} --tier thorough",
         'evidence_file': f'/verif/evidence/{pid}.json',
-        'replay_cmd_template': '/venv/bin/python -m sim.replay {path}',
+        'replay_cmd_template': '/venv/bin/python /verif/replay.py {path}',
         'engine': PROPS[pid]['engine'],
         'level_claimed': {'category': 'exploration', 'text': t['level'], 'design_ref': t['design_ref']},
         'level_note': t['note'],
